@@ -338,7 +338,63 @@ fn metamorphic(ctx: &mut Ctx) {
     }
 }
 
+/// REBIND: a partial that re-binds one of its arguments (render) or a caller's name (include) has
+/// re-bound it completely — a member only the old value had is gone, for printing reads and for the
+/// soft reads of `if` alike.
+fn rebind_law(ctx: &mut Ctx) {
+    let probe = |name: &str| -> Vec<Node> {
+        vec![
+            text("["), out(var(name)), text("]"),
+            Node::Cond { c: Cond::Exist(path(name, &["x"])), mode: true, thn: vec![text("OLD")], els: Some(vec![text("rebound")]), elsif: false },
+            Node::Cond { c: Cond::Exist(Expr::Var(name.into(), vec![lit_s("x")])), mode: false, thn: vec![text("!")], els: Some(vec![text("OLD2")]), elsif: false },
+        ]
+    };
+    let mut p_assign = vec![Node::Assign("a".into(), lit_s("s"), vec![])];
+    p_assign.extend(probe("a"));
+    let mut p_capture = vec![Node::Capture("a".into(), vec![text("s")])];
+    p_capture.extend(probe("a"));
+    let partials: Vec<PartialDef> = vec![
+        ("pa".into(), Ok(p_assign)),
+        ("pc".into(), Ok(p_capture)),
+        ("q".into(), Ok(vec![Node::Assign("a".into(), lit_s("s"), vec![])])),
+        ("show".into(), Ok(vec![text("<"), out(var("v")), text(">")])),
+    ];
+    let parser = build_parser(&partials, Policy::Eager);
+    let mut obj = Object::new();
+    obj.insert("x".into(), Value::scalar(1i64));
+    let mut data = Object::new();
+    data.insert("obj".into(), Value::Object(obj.clone()));
+    data.insert("a".into(), Value::Object(obj.clone()));
+    data.insert("objs".into(), Value::Array(vec![Value::Object(obj.clone()), Value::Object(obj)]));
+    const M: &str = "\u{27e6}B\u{27e7}";
+    for pn in ["pa", "pc"] {
+        let cases: Vec<(Vec<Node>, &str)> = vec![
+            (vec![text(M), Node::Render(lit_s(pn), RForm::Plain, vec![("a".into(), var("obj"))])], "[s]rebound!"),
+            (vec![text(M), Node::Render(lit_s(pn), RForm::With(var("obj"), "a".into()), vec![])], "[s]rebound!"),
+            (vec![text(M), Node::Render(lit_s(pn), RForm::For(RangeE::Arr(var("objs")), "a".into()), vec![])], "[s]rebound![s]rebound!"),
+            (vec![text(M), Node::Include(lit_s(pn), vec![])], "[s]rebound!"),
+        ];
+        for (t, want) in cases {
+            let obs = render_text(&parser, &src_tmpl(&t), &data);
+            let ok = matches!(after(&obs, M), Some(x) if x == want);
+            ctx.emit(render_case("c08", if ok { "law" } else { "REBIND" }, &t, &data, &partials, &obs));
+        }
+    }
+    // the caller after an include that re-bound its name
+    let mut t = vec![Node::Include(lit_s("q"), vec![]), text(M)];
+    t.extend(probe("a"));
+    let obs = render_text(&parser, &src_tmpl(&t), &data);
+    let ok = matches!(after(&obs, M), Some(x) if x == "[s]rebound!");
+    ctx.emit(render_case("c08", if ok { "law" } else { "REBIND" }, &t, &data, &partials, &obs));
+    // … and an argument expression evaluated after it: the member is gone, so the tag fails
+    let t = vec![Node::Include(lit_s("q"), vec![]), Node::Render(lit_s("show"), RForm::Plain, vec![("v".into(), path("a", &["x"]))])];
+    let obs = render_text(&parser, &src_tmpl(&t), &data);
+    let ok = matches!(obs, Obs::Err(_));
+    ctx.emit(render_case("c08", if ok { "law" } else { "REBIND" }, &t, &data, &partials, &obs));
+}
+
 pub fn run(ctx: &mut Ctx) {
+    rebind_law(ctx);
     metamorphic(ctx);
     let n = if ctx.tier_thorough { 300_000 } else { 10_000 };
     let mut g = Gen::new(ctx.seed ^ 0xC08);
